@@ -68,8 +68,10 @@ def generate(ctx):
     cases = []
     for i in range(n):
         corner = {0: "zero_rows", 1: "all_missing", 2: "all_empty"}.get(i % 40)
-        inp = ao.mk_input(rng, max_rows=max_rows, recipes=LAYOUTS, corner=corner,
-                          recipe=LAYOUTS[i % len(LAYOUTS)] if i < 2 * len(LAYOUTS) else None)
+        recipe = LAYOUTS[i % len(LAYOUTS)] if i < 2 * len(LAYOUTS) else None
+        if i % 7 == 0 and (i // 7) % 3 == 0 and "mixed_bases" in LAYOUTS:
+            recipe, corner = "mixed_bases", None        # the export must cut every field by ITS OWN offsets
+        inp = ao.mk_input(rng, max_rows=max_rows, recipes=LAYOUTS, corner=corner, recipe=recipe)
         if inp.get("history_failed"):
             cases.append(ao.history_failure_case(inp))
             continue
